@@ -207,6 +207,15 @@ def monitors_c06(cfg, op, o):
         inc = 0 if (pre["supply"] == 0 or tot == 0) else (tot - cut) * dsc // pre["supply"]
         if o["rps"] != pre["rps"] + inc:
             out.append((f"staking-index-growth:{op[0]}", f"{op} at block {o['blk']}: index {pre['rps']} -> {o['rps']}, expected +{inc} (accrual {tot}, supply {pre['supply']})"))
+        else:
+            # "supply" is what earns: the outstanding position amounts (the farm's own supply counter must equal them - C07)
+            outstanding = sum(pre["held"].values())
+            if outstanding != pre["supply"]:
+                inc2 = 0 if (outstanding == 0 or tot == 0) else (tot - cut) * dsc // outstanding
+                if inc2 != inc:
+                    out.append((f"staking-index-growth-vs-outstanding-positions:{op[0]}",
+                                f"{op} at block {o['blk']}: index {pre['rps']} -> {o['rps']} follows the farm's supply counter {pre['supply']}; the "
+                                f"outstanding positions sum to {outstanding}, for which the increment is {inc2} (accrual {tot})"))
         if o["acc"] - pre["acc"] != tot:
             out.append((f"staking-accrual:{op[0]}", f"{op}: accumulated rewards grew by {o['acc'] - pre['acc']}, expected {tot}"))
         if o["blk"] > pre["last"] and o["last"] != o["blk"]:
